@@ -340,7 +340,8 @@ fn momentum_run(scn: &W4Scn, mirrored: bool, stats: &mut RunStats) -> Result<Vec
     let c = cfg.centre as i64;
     let quote = |off: i32, half: bool| -> (u32, u32) {
         // bid / ask prices (in price units) giving mid = (c + off [+ 1/2]) * tick, mirrored about c
-        let (b, k) = if !mirrored { (c + off as i64 - 1, c + off as i64 + 1 + half as i64) } else { (c - off as i64 - 1 - half as i64, c - off as i64 + 1) };
+        // spread of 8 ticks: consecutive quotes (|offset change| <= 3) can never cross one another inside a step
+        let (b, k) = if !mirrored { (c + off as i64 - 4, c + off as i64 + 4 + half as i64) } else { (c - off as i64 - 4 - half as i64, c - off as i64 + 4) };
         ((b * tick) as u32, (k * tick) as u32)
     };
     let mut cur: Option<(usize, usize)> = None;
